@@ -315,7 +315,34 @@ def graph_proto_to_ext(g: onnx.GraphProto, flags: dict | None = None) -> dict:
     }
 
 
-def ir_graph_to_world_ext(graph: ir.Graph, flags: dict | None = None) -> dict:
+def func_proto_to_ext(f: onnx.FunctionProto, flags: dict | None = None) -> dict:
+    """FuncE JSON of a FunctionProto (IR version >= 10 format)"""
+    if flags is None:
+        flags = {}
+    return {
+        "id": [f.domain, f.name, f.overload], "inputs": list(f.input), "outputs": list(f.output),
+        "vinfo": [_vinfo_e(v, flags) for v in f.value_info],
+        "nodes": [
+            {"i": list(n.input), "o": list(n.output), "devs": [_dev_proto(dc) for dc in n.device_configurations],
+             "g": [graph_proto_to_ext(s, flags) for s in sc._subgraphs_of_node_proto(n)]}
+            for n in f.node
+        ],
+    }
+
+
+def model_proto_to_ext(m: onnx.ModelProto, flags: dict | None = None) -> dict:
+    """request body of `scope.medeser`: main graph and functions"""
+    if flags is None:
+        flags = {}
+    return {"p": graph_proto_to_ext(m.graph, flags), "funcs": [func_proto_to_ext(f, flags) for f in m.functions]}
+
+
+def ir_model_to_world_ext(model: ir.Model, flags: dict | None = None) -> dict:
+    """world + ext of an IR model: main graph, then the functions in dict order"""
+    return ir_graph_to_world_ext(model.graph, flags, funcs=[(k, f.graph) for k, f in model.functions.items()])
+
+
+def ir_graph_to_world_ext(graph: ir.Graph, flags: dict | None = None, funcs: list | None = None) -> dict:
     """{"world": World JSON (documentation token = doc_string alone), "ext": Ext JSON} of a real IR graph; numbering
     as `serde_common.ir_graph_to_world` (first encounter: inputs, initializers, per node inputs / outputs /
     subgraphs, outputs)"""
@@ -342,6 +369,7 @@ def ir_graph_to_world_ext(graph: ir.Graph, flags: dict | None = None) -> dict:
         return {"id": gid, "inputs": ins, "inits": inits, "nodes": nodes, "outputs": outs}
 
     root = walk(graph)
+    fworlds = [[list(fid), walk(fg)] for fid, fg in funcs or []]
 
     def fix(gt):
         for n in gt["nodes"]:
@@ -351,6 +379,8 @@ def ir_graph_to_world_ext(graph: ir.Graph, flags: dict | None = None) -> dict:
                 fix(s)
 
     fix(root)
+    for _, fw in fworlds:
+        fix(fw)
     vals, vmeta, quant = [], [], []
     for v in num.vobjs:
         tok, so = sc._mk_token(sc._canon_ir_type(v.type), sc._canon_ir_shape(v.shape), v.doc_string, None)
@@ -388,6 +418,8 @@ def ir_graph_to_world_ext(graph: ir.Graph, flags: dict | None = None) -> dict:
         devs.append(ds)
     tens = [[t.name, *sc.tensor_tokens_of_ir(t)] for t in num.tobjs]
     world = {"vals": vals, "tens": tens, "nn": len(num.nobjs), "ng": len(num.gobjs), "root": root}
+    if funcs is not None:
+        world["funcs"] = fworlds
     return {"world": world, "ext": {"vmeta": vmeta, "quant": quant, "devs": devs}}
 
 
@@ -419,6 +451,8 @@ def canon_world_ext(we: dict) -> dict:
             v(i)
 
     walk(w["root"])
+    for _, fg in w.get("funcs") or []:
+        walk(fg)
     cw = sc.canon_world(w)
     vmeta = [None] * len(vmap)
     quant = [None] * len(vmap)
